@@ -66,6 +66,8 @@ def replacement_histories():
     H["split-defining-constraint"] = [("add", 0, ["x+1==K0", "y<=K2"]), ("eval", 0, "x", 2, []), ("split", 0, 10), ("eval", 10, "x", 9, []), ("eval", 11, "x", 9, [])]
     H["combine-defining-constraint"] = [("branch", 0, 1), ("add", 0, ["x+1==K0"]), ("add", 1, ["y==K1"]), ("eval", 0, "x", 2, []), ("combine", 0, [1], 2), ("eval", 2, "x", 9, []), ("eval", 2, "y", 9, [])]
     H["what-if-extra-then-plain"] = [("add", 0, [A]), ("eval", 0, "x", 3, ["x==K1"]), ("eval", 0, "x", 9, []), ("max", 0, "x+1", False, []), ("branch", 0, 1), ("add", 1, ["x!=K1"]), ("sat", 1, [])]
+    # an expression pinned by an equality is replaced by the constant: signed optimum queries answer with the signed reading all the same
+    H["pinned-signed-optimum"] = [("add", 0, ["x==K1"]), ("min", 0, "x", True, []), ("max", 0, "x", True, []), ("max", 0, "x+1", True, []), ("min", 0, "x", False, [])]
     return H
 
 
@@ -245,6 +247,11 @@ def fault_histories():
     H["max-fault-max"] = [("add", 0, [A]), ("max", 0, "x", False, []), ("max", 0, "x", False, []), ("branch", 0, 1), ("max", 1, "x", False, [])]
     H["smax-fault-smax"] = [("add", 0, ["x!=K2"]), ("max", 0, "x", True, []), ("max", 0, "x", True, []), ("min", 0, "x", True, []), ("min", 0, "x", True, [])]
     H["eval-fault-eval"] = [("add", 0, [A]), ("eval", 0, "x", 9, []), ("eval", 0, "x", 9, []), ("max", 0, "x", False, [])]
+    # two independent groups, one of them possibly unsatisfiable (only the backend can tell): a fault during the satisfiability check must
+    # not make the solver forget that a group was never checked
+    H["two-groups-sat-fault-sat"] = [("add", 0, ["x<=K0"]), ("add", 0, ["y<=K2", "y>=K0"]), ("sat", 0, []), ("sat", 0, []), ("eval", 0, "x", 2, [])]
+    H["two-groups-sat-fault-branch"] = [("add", 0, ["y<=K2", "y>=K0"]), ("add", 0, ["x<=K0"]), ("sat", 0, []), ("branch", 0, 1), ("sat", 1, []), ("eval", 1, "x", 2, [])]
+    H["two-groups-presolved-fault"] = [("add", 0, ["x<=K0"]), ("sat", 0, []), ("add", 0, ["y<=K2", "y>=K0"]), ("sat", 0, []), ("sat", 0, []), ("eval", 0, "x", 2, [])]
     return H
 
 
@@ -340,6 +347,14 @@ def check(prop, tier, cap, only=None, procs=None, list_only=False, t0=None):
             print(o)
         return 0
     results = common.run_pool("harness.p_solvers", obs, tier, cap, procs=procs)
+    if prop == "C13":
+        # non-bit-vector sorts (IEEE equality is not identity) through the replacement / hybrid solvers on the real backends
+        from . import p_c13x
+
+        xobs = p_c13x.obligations(tier)
+        if only:
+            xobs = [o for o in xobs if fnmatch.fnmatchcase(o[0], only)]
+        results += common.run_pool("harness.p_c13x", xobs, tier, cap, procs=procs)
     if prop == "C18":
         # expressions: in-process identity and cross-process round trips under different hash seeds
         from . import p_c18x
